@@ -20,6 +20,10 @@ Streams of C19 (hex = hex-encoded bytes).
   c19.pairs   klen vlen                out = ok:<wire length> | PANIC:<class>
   c19.explore …                        out = ok | PANIC  (no model: exploration of handler entry points)
   c19.replacer  (fields of c20.replace)  out = hex of the expansion | PANIC | HANG  (model: slice C20's Replacer model)
+  c19.conns   step …                   out = <recorded, connection 0> " | " <recorded, connection 1> …   | PANIC:<class>
+              one field per step at ONE tlsHelloListener / bufpool:  a<i> accept connection i,
+              r<i>=<hex> one Read of connection i delivers the bytes, c<i> close connection i,
+              h<i>=<hex>,<hex>… the deliveries of a whole (failing) crypto/tls handshake on connection i
   c19.handshake cuts uahex             out = same | differs:… | PANIC (no model: real crypto/tls handshakes, split vs unsplit)
   info  = v=<n>;cs=<list>;cm=<hex>;ex=<list>;cu=<list>;pt=<hex>     "-" = nothing recorded
 -/
@@ -119,6 +123,53 @@ def segJudge (f : List String) (out : String) : String :=
       | none => "bad:unparsable:case"
     | _ => "bad:unparsable:case"
   | _ => totalVerdict (observed out)
+
+/-! c19.conns -/
+
+def parseStep (s : String) : Option (List Step) :=
+  let arg (r : List Char) : Option (Nat × String) :=
+    match (String.ofList r).splitOn "=" with
+    | [i, h] => i.toNat?.map fun i => (i, h)
+    | _ => none
+  match s.toList with
+  | 'a' :: r => (String.ofList r).toNat?.map fun i => [.accept i 0]
+  | 'c' :: r => (String.ofList r).toNat?.map fun i => [.close i]
+  | 'r' :: r => do
+    let (i, h) ← arg r
+    let b ← Driver.unhex h
+    pure [.read i b]
+  | 'h' :: r => do
+    let (i, h) ← arg r
+    let segs ← (h.splitOn ",").mapM Driver.unhex
+    pure (segs.map (.read i))
+  | _ => none
+
+def parseSteps (f : List String) : Option (List Step) := (f.mapM parseStep).map List.flatten
+
+/-- connections are numbered 0 … n-1 -/
+def connCount (steps : List Step) : Nat :=
+  steps.foldl (fun m s => match s with | .accept i _ => max m (i + 1) | _ => m) 0
+
+def connsModel (f : List String) : String :=
+  match parseSteps f with
+  | none => "bad-case"
+  | some steps =>
+    match recordedSeq {} steps (connCount steps) with
+    | .error e => panicStr e
+    | .ok recs => " | ".intercalate (recs.map fun r => showRec (.ok r))
+
+def connsJudge (f : List String) (out : String) : String :=
+  if out.startsWith "PANIC" then totalVerdict (observed out) else
+  match parseSteps f with
+  | none => "bad:unparsable:case"
+  | some steps =>
+    let recs := (out.splitOn " | ").mapM fun a =>
+      if a == "-" then some none else (parseInfo a).map some
+    match recs with
+    | none => "bad:unparsable:answer"
+    | some recs =>
+      if recs.length != connCount steps then "bad:unparsable:answer (number of connections)"
+      else Casket.HelloSpec.connsVerdict steps recs
 
 def showVerdict : R Verdict → String
   | .error f => panicStr f
@@ -220,6 +271,7 @@ def streams : List Driver.Stream := [
   { name := "c19.hello", model := helloModel, judge := helloJudge },
   { name := "c19.looks", model := looksModel, judge := looksJudge },
   { name := "c19.seg", model := segModel, judge := segJudge },
+  { name := "c19.conns", model := connsModel, judge := connsJudge },
   { name := "c19.mitm", model := mitmModel, judge := judgeTotal },
   { name := "c19.ua", model := uaModel, judge := judgeTotal },
   { name := "c19.uafuzz", model := uaFuzzModel, judge := judgeTotal },
